@@ -5,7 +5,6 @@ use dnssector::*;
 use super::*;
 use crate::gen::valid::{gen_valid, Cfg};
 use crate::model::refparse::{refparse, STRICT};
-use crate::mon::runaway_budget;
 use crate::prng::Rng;
 
 pub fn one(ctx: &mut Ctx, x: &[u8], shape: &str) {
@@ -143,6 +142,24 @@ pub fn run(ctx: &mut Ctx) {
                 ctx.cover(&format!("big|{}|{}", v.bytes.len() / 8192, v.msg.n_records() / 50));
                 one(ctx, &v.bytes, "big");
             }
+        }
+    }
+    // the accepted families built to maximise name walking (127 one-byte labels shared by every record, names
+    // through exactly 16 pointers, dense option lists): decompression must cope with the longest legal names
+    let na = ctx.scaled(if ctx.tier == "thorough" { 20_000 } else { 800 });
+    for case in ctx.phase("longest-names", na) {
+        if case % 64 == 0 && ctx.out_of_time() {
+            break;
+        }
+        ctx.begin_case(case);
+        let mut rng = Rng::for_case(ctx.seed, "c05-longest", 0, case);
+        let fam = (case as usize) % super::c18::FIRST_HOSTILE;
+        let size = *rng.pick(&[600usize, 1024, 2048, 5000]);
+        let x = super::c18::adversarial(&mut rng, fam, size);
+        if refparse(&x, STRICT).is_ok() {
+            ctx.count("longest_name_packets");
+            ctx.cover(&format!("longest|{}|{}", super::c18::FAMILIES[fam], size));
+            one(ctx, &x, super::c18::FAMILIES[fam]);
         }
     }
     let m = ctx.scaled(if ctx.tier == "thorough" { 4_000_000 } else { 200_000 });
